@@ -10,6 +10,9 @@ Postconditions, per exit (trace attached):
                           no later node ran (processed = i + 1)
    node construction fails  T = T0 ++ start ++ end(error), closed
 and without a trace driver: the same returns / raises, the same `processed`, T untouched (tracing is observational).
+The C01 node loop: with FoldData / FoldCtx defined by recursion over the node list (Fold(0) = the input payload, Fold(j+1) = what
+node j returns on Fold(j)), the invariant carries data = FoldData(i), context = FoldCtx(i) and "nodes 0..i-1 ran once each, in order";
+on return the result is Fold(n); when node k raises it was given Fold(k) and no later node ran (obligations fold[...]).
 Bounded stand-in (labelled bounded): schema validation of natively emitted JSONL lines, all failure points / kinds / detail
 levels on real pipelines (replay/c06_bounded.py).
 """
@@ -31,6 +34,10 @@ NodeFails = z3.Function("NodeFails", V, V, V, core.B)   # node.process(Payload(d
 NodeExc = z3.Function("NodeExcCls", V, V, V, I_)
 NodeOutData = z3.Function("NodeOutData", V, V, V, V)
 NodeOutCtx = z3.Function("NodeOutCtx", V, V, V, V)
+
+# the fold of the node semantics in declaration order (C01): FoldData(0) = data0, FoldData(j+1) = NodeOutData(node_j, FoldData(j), FoldCtx(j))
+FoldData = z3.Function("FoldData", I_, V)
+FoldCtx = z3.Function("FoldCtx", I_, V)
 
 HELPERS_FRESH_DICT = {"_trace_options", "_collect_env_pins", "_context_snapshot", "_init_summaries", "_augment_output_summaries"}
 HELPERS_FRESH_LIST = {"_required_keys_for", "_build_pre_checks", "_extra_pre_checks", "_build_post_checks", "_extra_post_checks"}
@@ -115,6 +122,7 @@ class Spec(PureLibMixin, BaseSpec):
         data, ctx = fld(st.h, payload, "data"), fld(st.h, payload, "context")
         P = self.PROCLOG
         st.set_list(P, st.list_sq(P).append(recv))
+        st.ghost["last_call"] = (recv, data, ctx)
         if st.decide(NodeFails(recv, data, ctx), "node-fails"):
             e = O.HExc(NodeExc(recv, data, ctx), origin=("node.process",))
             st.ghost["node_exc"] = e
@@ -312,6 +320,10 @@ def loop_inv(spec, traced):
         j = z3.Int("j!li")
         conj = [P.n == P0n + i, st.ghost["closed"] == z3.BoolVal(False) if False else z3.BoolVal(True)]
         conj.append(z3.ForAll([j], z3.Implies(z3.And(j >= 0, j < T0.n), T.at(j) == T0.at(j))))
+        # C01: the nodes ran one after the other in declaration order, each on what the previous one returned
+        nodes_arr = z3.Select(spec.H0.larr, V.id(spec.NODES))
+        conj.append(z3.And(c.I.lift(c.var("data")) == FoldData(i), c.I.lift(c.var("context")) == FoldCtx(i)))
+        conj.append(z3.ForAll([j], z3.Implies(z3.And(j >= 0, j < i), P.at(P0n + j) == z3.Select(nodes_arr, j))))
         if traced:
             run_token, pipeline_token = c.var("run_token"), c.var("pipeline_token")
             conj += [T.n == T0.n + 1 + i,
@@ -353,8 +365,19 @@ def h_execute(spec):
             spec.loops.clear()
             spec.loop(ORCH, "SemantivaOrchestrator.execute", 1, LoopSpec(lambda c: z3.BoolVal(True), modifies_heap=True,
                                                                           frame_except=lambda c: [c.var("semantic_pairs")]))
+            nodes_arr0 = z3.Select(spec.H0.larr, V.id(spec.NODES))
+
+            def fold_step(c):
+                # instance at the current index of the defining equations of FoldData / FoldCtx (definition by recursion: conservative)
+                if c.i is None:
+                    return
+                node_i = z3.Select(nodes_arr0, c.i)
+                c.st.assume(FoldData(c.i + 1) == NodeOutData(node_i, FoldData(c.i), FoldCtx(c.i)))
+                c.st.assume(FoldCtx(c.i + 1) == NodeOutCtx(node_i, FoldData(c.i), FoldCtx(c.i)))
             spec.loop(ORCH, "SemantivaOrchestrator.execute", 2, LoopSpec(loop_inv(spec, traced), modifies_heap=True,
-                                                                          frame_except=protected_frame(spec, cnodes, canonical)))
+                                                                          frame_except=protected_frame(spec, cnodes, canonical), havoc_hook=fold_step))
+            st.assume(FoldData(0) == fld(st.h, payload, "data"))
+            st.assume(FoldCtx(0) == fld(st.h, payload, "context"))
             T0 = Sq(z3.Select(spec.H0.larr, V.id(spec.TRACE)), z3.Select(spec.H0.llen, V.id(spec.TRACE)))
             P0n = z3.Select(spec.H0.llen, V.id(spec.PROCLOG))
             ci, f = E.method_of(I, ORCH, "SemantivaOrchestrator", "execute")
@@ -363,6 +386,20 @@ def h_execute(spec):
             T, P = st.list_sq(spec.TRACE), st.list_sq(spec.PROCLOG)
             tag = "traced" if traced else "untraced"
             j = z3.Int("j")
+            # ---- C01: execute is the fold of the node semantics in declaration order ------------------------------------------
+            if out[0] == "return":
+                res = out[1]
+                spec.oblige(I, f"fold[{tag}]/returns-the-last-node's-payload:data=Fold(n)", fld(st.h, res, "data") == FoldData(n))
+                spec.oblige(I, f"fold[{tag}]/returns-the-last-node's-payload:context=Fold(n)", fld(st.h, res, "context") == FoldCtx(n))
+                spec.oblige(I, f"fold[{tag}]/every-node-ran-once-in-declaration-order",
+                            z3.And(P.n == P0n + n, z3.ForAll([j], z3.Implies(z3.And(j >= 0, j < n), P.at(P0n + j) == z3.Select(nodes_arr0, j)))))
+            elif st.ghost.get("node_exc") is not None and out[1] is st.ghost.get("node_exc"):
+                k = P.n - P0n - 1
+                recv_, d_, c_ = st.ghost["last_call"]
+                spec.oblige(I, f"fold[{tag}]/the-failing-node-got-the-fold-of-its-predecessors",
+                            z3.And(k >= 0, k < n, recv_ == z3.Select(nodes_arr0, k), d_ == FoldData(k), c_ == FoldCtx(k)))
+                spec.oblige(I, f"fold[{tag}]/no-node-after-the-failing-one-ran",
+                            z3.And(P.at(P.n - 1) == recv_, z3.ForAll([j], z3.Implies(z3.And(j >= 0, j < k), P.at(P0n + j) == z3.Select(nodes_arr0, j)))))
             kept = z3.ForAll([j], z3.Implies(z3.And(j >= 0, j < T0.n), T.at(j) == T0.at(j)))
             spec.oblige(I, f"{tag}/earlier-trace-content-kept", kept)
             if not traced:
